@@ -11,7 +11,7 @@ Extraction "model.ml"
   ewd_q ewd is_winnable winnable_plain q_reduction reduced_b linear_equivalence
   dsub dadd dneg dscale placements
   rank_plain rank_opt rank_opt_uncorrected canonical_g
-  play_game test_strategy find_strategies compute_gonality
+  play_game test_strategy find_strategies compute_gonality per_sink
   lin_equiv_q conc_ok cert_ok indeg_o outdeg_o burn_orient burn_pos
   ginit gn add_edge add_edges g_genus remove_vertex graph_of_adj
   dinit dstep cstep is_effective_b d_add d_sub d_eqb chip_at sstep
